@@ -10,7 +10,7 @@
    frames), so no decoder can run longer than the input it is given; the only
    unbounded recursion of the code (frame reassembly) recurses on the input. *)
 From Coq Require Import List NArith ZArith.
-From Cedar Require Import Lib.Bytes gen.Consts Model.Msg Model.Decode Model.Sinful Model.Version Proofs.C13 Proofs.C13ad Proofs.C13raw Proofs.C13sinful Proofs.C13version.
+From Cedar Require Import Lib.Bytes gen.Consts Model.Msg Model.Decode Model.Sinful Model.Version gen.FactsC13 Proofs.C13 Proofs.C13ad Proofs.C13raw Proofs.C13sinful Proofs.C13version Proofs.C13sites.
 Import ListNotations.
 Local Open Scope N_scope.
 
@@ -244,3 +244,16 @@ Example C13_version_example :
   /\ version_parse [x31; x2e; x32; x2e; x39; x39; x39; x39; x39; x39; x39; x39; x39; x39; x39; x39; x39; x39; x39; x39; x39; x39; x39; x39]
       = Some (1, 2, int64_max)%Z.
 Proof. split; vm_compute; reflexivity. Qed.
+
+(* ---- call sites (gen/FactsC13.v, regenerated from /repo's source on every run) ------------ *)
+(* Every call, in security/, server/, client/ and ccb/, of a Message reader that pulls a
+   peer-sized value (the GetClassAd and GetString families) is a size-capped variant whose cap is a positive
+   constant of at most one frame (or is on the justified allow-list, which is empty); and the
+   handshake ads the property names (client negotiation reply and post-auth ad, server's read
+   of the client ad, the resumption reply, the CCB control ads) are among them. *)
+Theorem C13_handshake_readers_bounded :
+  (forall s, In s call_sites ->
+     exists n, snd s = Some n /\ 0 < n <= max_site_cap \/ existsb (same3 (fst s)) allow_list = true) /\
+  (forall r, In r required_sites -> present r = true).
+Proof. exact handshake_readers_bounded. Qed.
+Print Assumptions C13_handshake_readers_bounded.
